@@ -1,8 +1,9 @@
 (* Heap/CopyInv.v - C03 / C12 / C09: the state after a successful Document::deepCopy is well-formed, synchronised and
    keeps an object's referenced and complementary objects apart - derived from the specification of deepCopy
    (Heap/CopyRefs.v deep_copy_spec): the copies carry the images of the reference lists of their originals. *)
+From Coq Require Import Relations.Relation_Operators.
 From Adm Require Import Heap.Frame Heap.More Heap.Writes Heap.PlanChecks Heap.Sync Heap.WF Heap.Remove Heap.Copy Heap.WFExt
-  Heap.CopyRefs.
+  Heap.CopyRefs Heap.Acyclic.
 Local Open Scope N_scope.
 
 Lemma fold_uid_incl sil : forall l acc r, In r (fold_left (uid_step sil) l acc) -> In r acc \/ In r l.
@@ -178,6 +179,41 @@ Proof.
     apply f_inj in E; [|apply (orig_target h ObjCompl q Ho Hq)|apply (orig_target h ObjObj p Ho Hp)]. subst q.
     apply (Hdj h p Hp Hq).
   - rewrite !OthR in * by exact Hnc. apply (Hdj a b H1 H2).
+Qed.
+
+(* cycles: every edge between copies is the image of an edge between their originals *)
+Definition Pj (u u0 : positive) : Prop := (Copy mp u /\ Orig mp u0 /\ f u0 = u) \/ (~ Copy mp u /\ u0 = u).
+Lemma Pj_total u : exists u0, Pj u u0.
+Proof.
+  destruct (copy_dec u) as [Hc | Hn]; [|exists u; right; auto].
+  destruct (copy_orig u Hc) as (h & Ho & E). exists h. left. auto.
+Qed.
+Lemma Pj_fun u a b : Pj u a -> Pj u b -> a = b.
+Proof.
+  intros [(C1 & O1 & E1) | (N1 & ->)] [(C2 & O2 & E2) | (N2 & ->)]; auto; try contradiction.
+  apply f_inj; auto. congruence.
+Qed.
+Lemma edge_proj rk u v u0 : rk <> ObjUid -> edge s' rk u v -> Pj u u0 -> exists v0, Pj v v0 /\ edge s rk u0 v0.
+Proof.
+  intros Hrk He [(Cx & Ox & <-) | (Nx & ->)]; unfold edge in *.
+  - rewrite CopR, obs_plain in He by auto. apply in_map_iff in He. destruct He as (r & <- & Hr).
+    destruct (orig_target u0 rk r Ox Hr) as (_ & _ & Hor). exists r. split; auto. left. split; [apply mpf_copy; auto|auto].
+  - rewrite OthR in He by exact Nx. exists v. split; auto. right. split; auto.
+    destruct W as [_ R]. destruct (ro_typed _ R _ _ _ He) as [_ K]. apply elem_not_copy. unfold kindof in K.
+    destruct (get_elem s v); discriminate.
+Qed.
+Lemma ct_proj rk : rk <> ObjUid -> forall u v, clos_trans positive (edge s' rk) u v ->
+  forall u0, Pj u u0 -> exists v0, Pj v v0 /\ clos_trans positive (edge s rk) u0 v0.
+Proof.
+  intros Hrk u v H. induction H as [u v He | u m v H1 IH1 H2 IH2]; intros u0 Hp.
+  - destruct (edge_proj rk u v u0 Hrk He Hp) as (v0 & Py & Ey). exists v0. split; auto. apply t_step. exact Ey.
+  - destruct (IH1 u0 Hp) as (m0 & Pm & C1). destruct (IH2 m0 Pm) as (v0 & Py & C2). exists v0. split; auto.
+    eapply t_trans; eauto.
+Qed.
+Theorem image_acyclic rk : rk <> ObjUid -> acyclic s rk -> acyclic s' rk.
+Proof.
+  intros Hrk Ha a Hc. destruct (Pj_total a) as (a0 & Pa). destruct (ct_proj rk Hrk a a Hc a0 Pa) as (a1 & Pa1 & C).
+  rewrite (Pj_fun a a1 a0 Pa1 Pa) in C. apply (Ha a0 C).
 Qed.
 End Image.
 
